@@ -339,6 +339,18 @@ func run(c *vk.Ctx, can *rig.Canary, sc scen, idx int) {
 			c.Count("resend_requests", 1)
 			time.Sleep(N / 2)
 		}
+	case "peer-testrequest-mid-period":
+		// the peer sends a TestRequest 0.6 N after the previous outbound message: the Heartbeat that answers it is an
+		// outbound message like any other, the next unsolicited one is due N after it
+		for k := 0; time.Now().Before(end); k++ {
+			target := lastOut().Add(N * 6 / 10)
+			if d := time.Until(target); d > 0 {
+				time.Sleep(d)
+			}
+			l.Conn.Feed(l.Peer.TestRequest("mid-" + strconv.Itoa(k)))
+			c.Count("peer_testrequests", 1)
+			time.Sleep(N / 5)
+		}
 	case "resend-replay-mid-period":
 		// the peer asks for a retransmission N/2 after the previous outbound message: the replay is an outbound message too
 		for time.Now().Before(end) {
@@ -479,7 +491,7 @@ func main() {
 	var scs []scen
 	for _, role := range []rig.Role{rig.Acceptor, rig.Initiator} {
 		for _, n := range ns {
-			for _, p := range []string{"idle", "send-just-before", "send-inside-last-polling-step", "counter-store-fault-on-one-send", "accepted-stage-observer-returns-false", "resend-batch-refused-midway", "send-at-deadline", "send-just-after", "bursts-then-idle", "half-period-sends", "pair-just-under-a-tenth-apart", "resend-replay-mid-period", "handler-send-mid-period", "peer-answers-testrequests-late", "observers-removed-after-logon", "refused-sends-filter-registered-before-logon", "refused-sends-filter-registered-after-logon"} {
+			for _, p := range []string{"idle", "send-just-before", "send-inside-last-polling-step", "counter-store-fault-on-one-send", "accepted-stage-observer-returns-false", "resend-batch-refused-midway", "peer-testrequest-mid-period", "send-at-deadline", "send-just-after", "bursts-then-idle", "half-period-sends", "pair-just-under-a-tenth-apart", "resend-replay-mid-period", "handler-send-mid-period", "peer-answers-testrequests-late", "observers-removed-after-logon", "refused-sends-filter-registered-before-logon", "refused-sends-filter-registered-after-logon"} {
 				scs = append(scs, scen{role, n, p, periods[n], 0})
 			}
 		}
